@@ -831,7 +831,7 @@ def standard_check(prop, spec_module, comps, level_text, assumptions, tier, seed
     return finish(ctx, level_text, assumptions, checker_cmd)
 
 
-def replay(prop, comps, path, spec_module=None):
+def replay(prop, comps, path, spec_module=None, pre=None):
     """re-run a replay file against the current tree: exit 1 (with the VIOLATION line) if what it records still happens"""
     data = json.load(open(path))
     ctx = Ctx(prop, "quick", 0)
@@ -843,7 +843,10 @@ def replay(prop, comps, path, spec_module=None):
             if spec_module is None:
                 print("(no component in this replay file and no Spec modules given: nothing re-run)")
                 return 0
-            ok = ctx.lean_check(spec_module)
+            with Lock("lean"):
+                if pre:
+                    pre(ctx)      # translators: the theorems are re-checked against tables regenerated from the current tree
+                ok = ctx.lean_check(spec_module)
             for k, d in ctx.broken:
                 print("BROKEN %s: %s" % (k, d[:400]))
             if not ok or ctx.broken:
